@@ -918,3 +918,230 @@ Proof.
     + rewrite zlength_app, Ei. unfold zlength. rewrite map_length. lia.
     + eapply Forall_impl; [|exact G]. cbn. intros e He. apply slt_asym; exact He.
 Qed.
+
+(* ================================================================== the invariant of Btree *)
+Definition member_of (es : list entry) (m : bytes) (sc : score) : Prop :=
+  exists ns, lfind sc es = Some ns /\ In m ns.
+
+(* Appendix A.2: BST strictly ordered by score; stored heights are the real heights and the
+   tree is height-balanced ([avl], see avl_stored_balanced); every node holds at least one name,
+   names of a node without repetition (sorted); len is the number of nodes; dict has no
+   duplicate key and maps m to sc exactly when m is one of the names of the node of score sc
+   (so no name occurs in two nodes). *)
+Definition zset_inv (z : zset) : Prop :=
+  avl (zroot z) /\ sorted (elems (zroot z)) /\ names_ok (elems (zroot z)) /\
+  zlen z = zlength (elems (zroot z)) /\
+  NoDup (akeys (zdict z)) /\
+  (forall m sc, alookup m (zdict z) = Some sc <-> member_of (elems (zroot z)) m sc).
+
+Lemma zset_inv_empty : zset_inv empty_zset.
+Proof.
+  unfold zset_inv, empty_zset, member_of. cbn. repeat split; try constructor.
+  - discriminate.
+  - intros (ns & H & _). discriminate.
+Qed.
+
+Lemma names_ok_lalter sc f es :
+  sorted es -> names_ok es ->
+  (forall ns', f None = Some ns' -> ns' <> [] /\ names_sorted ns') ->
+  (forall ns ns', lfind sc es = Some ns -> ns <> [] /\ names_sorted ns -> f (Some ns) = Some ns' ->
+                  ns' <> [] /\ names_sorted ns') ->
+  names_ok (lalter sc f es).
+Proof.
+  unfold names_ok. induction es as [|[s ns] r IH]; intros S N F0 F1; cbn [lalter].
+  - destruct (f None) eqn:E; constructor; [apply F0; reflexivity|constructor].
+  - apply sorted_cons_inv in S as [S G]. apply Forall_cons_iff in N as [N1 N2]. cbn [snd] in N1.
+    destruct (score_cmp_spec s sc) as [->|L|L].
+    + destruct (f (Some ns)) eqn:E; [|exact N2]. constructor; [|exact N2]. cbn [snd].
+      apply (F1 ns); [|exact N1|exact E]. cbn [lfind].
+      destruct (score_eqb_spec sc sc); [reflexivity|congruence].
+    + constructor; [exact N1|]. apply IH; try assumption.
+      intros ns0 ns' H. apply F1. cbn [lfind].
+      destruct (score_eqb_spec s sc) as [->|Q]; [slt_contra|exact H].
+    + destruct (f None) eqn:E; [constructor; [apply F0; reflexivity|]|]; constructor; assumption.
+Qed.
+
+Lemma member_of_fun_dict z m sc1 sc2 :
+  zset_inv z -> member_of (elems (zroot z)) m sc1 -> member_of (elems (zroot z)) m sc2 -> sc1 = sc2.
+Proof.
+  intros (_ & _ & _ & _ & _ & D) H1 H2. apply D in H1, H2. congruence.
+Qed.
+
+Lemma names_ok_lfind es sc ns : names_ok es -> lfind sc es = Some ns -> ns <> [] /\ names_sorted ns.
+Proof.
+  intros N H. apply lfind_In in H. unfold names_ok in N. rewrite Forall_forall in N.
+  apply (N _ H).
+Qed.
+
+(* ---- Insert ---- *)
+Lemma bt_insert_inv z sc m :
+  zset_inv z -> alookup m (zdict z) = None -> zset_inv (bt_insert z sc m).
+Proof.
+  intros (A & S & N & Ln & ND & D) Hm. unfold bt_insert, zset_inv. cbn [zroot zlen zdict].
+  assert (E : elems (insert sc m (zroot z)) = lalter sc (f_ins m) (elems (zroot z)))
+    by (apply insert_elems; exact S).
+  rewrite E. repeat split.
+  - apply insert_avl; exact A.
+  - apply sorted_lalter; exact S.
+  - apply names_ok_lalter; try assumption.
+    + intros ns' H. inversion H; subst. split; [discriminate|repeat constructor].
+    + intros ns ns' _ [_ Hs] H. inversion H; subst. split; [apply names_add_nonempty|apply names_add_sorted; exact Hs].
+  - rewrite length_lalter by exact S. rewrite (find_node_elems sc (zroot z) S).
+    unfold f_ins, entry in *. destruct (lfind sc (elems (zroot z))); lia.
+  - apply NoDup_aset; exact ND.
+  - (* dict -> tree *)
+    unfold member_of. rewrite lfind_lalter by exact S.
+    destruct (bytes_eq_dec m0 m) as [->|Nm].
+    + rewrite alookup_aset_same. intros H. inversion H; subst sc0.
+      destruct (score_eqb_spec sc sc); [|congruence].
+      eexists. split; [reflexivity|]. destruct (lfind sc (elems (zroot z))); [apply In_names_add; left; reflexivity|left; reflexivity].
+    + rewrite alookup_aset_other by exact Nm. intros H. apply D in H as (ns & H1 & H2).
+      destruct (score_eqb_spec sc0 sc) as [->|Ns].
+      * rewrite H1. eexists. split; [reflexivity|]. apply In_names_add. right; exact H2.
+      * exists ns. split; assumption.
+  - (* tree -> dict *)
+    unfold member_of. rewrite lfind_lalter by exact S. intros (ns & H1 & H2).
+    destruct (bytes_eq_dec m0 m) as [->|Nm].
+    + rewrite alookup_aset_same. destruct (score_eqb_spec sc0 sc) as [->|Ns]; [reflexivity|].
+      exfalso. assert (Q : alookup m (zdict z) = Some sc0) by (apply D; exists ns; split; assumption).
+      congruence.
+    + rewrite alookup_aset_other by exact Nm. apply D.
+      destruct (score_eqb_spec sc0 sc) as [->|Ns]; [|exists ns; split; assumption].
+      unfold f_ins in H1. inversion H1; subst ns. clear H1.
+      destruct (lfind sc (elems (zroot z))) as [ns0|] eqn:F.
+      * apply In_names_add in H2 as [->|H2]; [congruence|]. exists ns0. split; [exact F|exact H2].
+      * destruct H2 as [H2|[]]. congruence.
+Qed.
+
+Lemma bt_insert_dict z sc m m' :
+  alookup m' (zdict (bt_insert z sc m)) = if bytes_eqb m' m then Some sc else alookup m' (zdict z).
+Proof.
+  unfold bt_insert. cbn [zdict]. destruct (bytes_eqb_spec m' m) as [->|N].
+  - apply alookup_aset_same.
+  - apply alookup_aset_other; exact N.
+Qed.
+
+(* ---- Delete ---- *)
+Lemma bt_delete_inv z m z' :
+  zset_inv z -> bt_delete z m = Some z' -> zset_inv z'.
+Proof.
+  intros (A & S & N & Ln & ND & D). unfold bt_delete.
+  destruct (alookup m (zdict z)) as [sc|] eqn:Hm; [|discriminate].
+  pose proof Hm as Hmem. apply D in Hmem as (ns & Hf & Hin).
+  rewrite (find_node_elems sc (zroot z) S), Hf.
+  destruct (names_ok_lfind _ _ _ N Hf) as [Nne Nso].
+  destruct (Z.ltb_spec 1 (zlength ns)) as [Big|Small]; intros Ez; inversion Ez; subst z'; clear Ez;
+    unfold zset_inv; cbn [zroot zlen zdict].
+  - (* the node keeps other members *)
+    assert (E : elems (remove_name sc m (zroot z)) = lalter sc (f_delname m) (elems (zroot z)))
+      by (apply remove_name_elems; exact S).
+    rewrite E. repeat split.
+    + apply remove_name_shape; exact A.
+    + apply sorted_lalter; exact S.
+    + apply names_ok_lalter; try assumption; [discriminate|].
+      intros ns0 ns' H0 [_ Hs] H. rewrite Hf in H0. inversion H0; subst ns0. inversion H; subst ns'.
+      split; [|apply names_del_sorted; exact Hs].
+      intros Q. pose proof (names_del_length m ns Hin) as Hl. rewrite Q in Hl. cbn in Hl. lia.
+    + rewrite length_lalter by exact S. rewrite Hf. unfold f_delname, entry in *. lia.
+    + apply NoDup_aremove; exact ND.
+    + unfold member_of. rewrite lfind_lalter by exact S.
+      destruct (bytes_eq_dec m0 m) as [->|Nm]; [rewrite alookup_aremove_same; discriminate|].
+      rewrite alookup_aremove_other by exact Nm. intros H. apply D in H as (ns1 & H1 & H2).
+      destruct (score_eqb_spec sc0 sc) as [->|Ns]; [|exists ns1; split; assumption].
+      rewrite Hf in *. inversion H1; subst ns1. eexists. split; [reflexivity|].
+      apply In_names_del; [exact Nso|]. split; assumption.
+    + unfold member_of. rewrite lfind_lalter by exact S. intros (ns1 & H1 & H2).
+      destruct (score_eqb_spec sc0 sc) as [->|Ns].
+      * rewrite Hf in H1. unfold f_delname in H1. inversion H1; subst ns1.
+        apply In_names_del in H2 as [H2 Nm]; [|exact Nso].
+        rewrite alookup_aremove_other by exact Nm. apply D. exists ns. split; assumption.
+      * destruct (bytes_eq_dec m0 m) as [->|Nm].
+        -- exfalso. assert (Q : alookup m (zdict z) = Some sc0) by (apply D; exists ns1; split; assumption).
+           congruence.
+        -- rewrite alookup_aremove_other by exact Nm. apply D. exists ns1. split; assumption.
+  - (* the last member of its node: the node goes *)
+    assert (Ens : ns = [m]).
+    { destruct ns as [|x [|y r]]; [congruence| |unfold zlength in Small; cbn in Small; lia].
+      destruct Hin as [->|[]]. reflexivity. }
+    subst ns.
+    assert (E : elems (delete_node sc (zroot z)) = lalter sc f_del (elems (zroot z)))
+      by (apply delete_node_elems; exact S).
+    rewrite E. repeat split.
+    + apply delete_node_avl; exact A.
+    + apply sorted_lalter; exact S.
+    + apply names_ok_lalter; try assumption; discriminate.
+    + rewrite length_lalter by exact S. rewrite Hf. unfold f_del, entry in *. lia.
+    + apply NoDup_aremove; exact ND.
+    + unfold member_of. rewrite lfind_lalter by exact S.
+      destruct (bytes_eq_dec m0 m) as [->|Nm]; [rewrite alookup_aremove_same; discriminate|].
+      rewrite alookup_aremove_other by exact Nm. intros H. apply D in H as (ns1 & H1 & H2).
+      destruct (score_eqb_spec sc0 sc) as [->|Ns]; [|exists ns1; split; assumption].
+      rewrite Hf in H1. inversion H1; subst ns1. destruct H2 as [H2|[]]. congruence.
+    + unfold member_of. rewrite lfind_lalter by exact S. intros (ns1 & H1 & H2).
+      destruct (score_eqb_spec sc0 sc) as [->|Ns]; [discriminate|].
+      destruct (bytes_eq_dec m0 m) as [->|Nm].
+      * exfalso. assert (Q : alookup m (zdict z) = Some sc0) by (apply D; exists ns1; split; assumption).
+        congruence.
+      * rewrite alookup_aremove_other by exact Nm. apply D. exists ns1. split; assumption.
+Qed.
+
+Lemma bt_delete_dict z m z' m' :
+  bt_delete z m = Some z' ->
+  alookup m' (zdict z') = if bytes_eqb m' m then None else alookup m' (zdict z).
+Proof.
+  unfold bt_delete. destruct (alookup m (zdict z)) as [sc|]; [|discriminate].
+  intros H.
+  assert (Ed : zdict z' = aremove m (zdict z)).
+  { destruct (find_node sc (zroot z)); [destruct (1 <? zlength l)|]; inversion H; reflexivity. }
+  rewrite Ed. destruct (bytes_eqb_spec m' m) as [->|N].
+  - apply alookup_aremove_same.
+  - apply alookup_aremove_other; exact N.
+Qed.
+
+Lemma bt_delete_some_iff z m : (exists z', bt_delete z m = Some z') <-> alookup m (zdict z) <> None.
+Proof.
+  unfold bt_delete. destruct (alookup m (zdict z)) as [sc|].
+  - split; [discriminate|]. intros _.
+    destruct (find_node sc (zroot z)); [destruct (1 <? zlength l)|]; eexists; reflexivity.
+  - split; [intros [z' H]; discriminate|congruence].
+Qed.
+
+(* ---- what the invariant says, in the words of the property ---- *)
+Lemma member_of_In es m sc : sorted es -> (member_of es m sc <-> In (m, sc) (flat es)).
+Proof.
+  intros S. unfold member_of. rewrite In_flat. split; intros (ns & H1 & H2); exists ns; split; try assumption.
+  - apply lfind_In; exact H1.
+  - apply In_lfind; assumption.
+Qed.
+
+Lemma zset_inv_dict_members z m sc :
+  zset_inv z -> (alookup m (zdict z) = Some sc <-> In (m, sc) (members (zroot z))).
+Proof.
+  intros (A & S & N & Ln & ND & D). rewrite D. apply member_of_In; exact S.
+Qed.
+
+Lemma zset_inv_members_sorted z : zset_inv z -> StronglySorted elt_lt (members (zroot z)).
+Proof. intros (A & S & N & _). apply flat_sorted; assumption. Qed.
+
+Lemma zset_inv_members_NoDup z : zset_inv z -> NoDup (map fst (members (zroot z))).
+Proof.
+  intros I. apply NoDup_map_fst.
+  - eapply StronglySorted_NoDup; [apply elt_lt_irrefl|apply zset_inv_members_sorted; exact I].
+  - intros m s1 s2 H1 H2. apply (zset_inv_dict_members z m) in H1, H2; try exact I. congruence.
+Qed.
+
+Lemma zset_inv_dict_length z : zset_inv z -> zlength (zdict z) = zlength (members (zroot z)).
+Proof.
+  intros I. pose proof (zset_inv_members_NoDup z I) as ND2.
+  destruct I as (A & S & N & Ln & ND & D).
+  assert (P : Permutation (akeys (zdict z)) (map fst (members (zroot z)))).
+  { apply NoDup_Permutation; [exact ND|exact ND2|]. intros m. split.
+    - intros H. apply amem_true_iff in H. unfold amem in H.
+      destruct (alookup m (zdict z)) as [sc|] eqn:E; [|discriminate].
+      apply D in E. apply member_of_In in E; [|exact S].
+      apply in_map_iff. exists (m, sc). split; [reflexivity|exact E].
+    - intros H. apply in_map_iff in H as ([m' sc] & E & H). cbn in E. subst m'.
+      apply member_of_In in H; [|exact S]. apply D in H. eapply alookup_Some_in; exact H. }
+  apply Permutation_length in P. unfold akeys in P. rewrite !map_length in P.
+  unfold zlength. rewrite P. reflexivity.
+Qed.
